@@ -248,6 +248,33 @@ def check(case) -> Outcome:
             bad = _compare(q_a3, scm, a_set)
             if bad:
                 return fail("lemma3(fraction Q[T]):" + bad.pop("kind"), ancestral_set=a_set, expression=q_a3.to_y0()[:1500], model=scm.params(), **bad)
+    # (2d) Q[T] built by Lemma 1 under ANOTHER valid topological order than the one IDENTIFY is given: any expression
+    #      for Q[T] together with any valid order is a legitimate input
+    d2 = nx.DiGraph()
+    d2.add_nodes_from(sorted(g["nodes"]))
+    d2.add_edges_from(map(tuple, g["di"]))
+    others = [o for o in itt.islice(nx.all_topological_sorts(d2), 40) if o != list(topo)]
+    if others:
+        topo2 = others[case["pick"] % len(others)]
+        vt2 = [V(x) for x in topo2]
+        labels.add("Q[T]-built-under-another-order")
+        try:
+            qt2 = tian_id.compute_c_factor(district=[V(x) for x in t], subgraph_variables={V(x) for x in g["nodes"]}, subgraph_probability=P(vt2), graph_topo=vt2)
+            with ReentryGuard(tian_id, "identify_district_variables", _key):
+                r4 = tian_id.identify_district_variables(input_variables=frozenset(V(x) for x in c), input_district=frozenset(V(x) for x in t), district_probability=qt2, graph=graph, topo=vt)
+            q_a4 = tian_id.compute_ancestral_set_q_value(ancestral_set=frozenset(V(x) for x in a_set), subgraph_variables=frozenset(V(x) for x in t), subgraph_probability=qt2, graph_topo=vt)
+        except StepBudgetExceeded as e:
+            return fail("identify_district_variables-does-not-terminate", q_t_order=topo2, exc=str(e))
+        except Exception as e:
+            return fail("identify_district_variables-raised", q_t_order=topo2, exc=repr(e)[:300])
+        for k, scm in enumerate(scms):
+            bad = _compare(q_a4, scm, a_set)
+            if bad:
+                return fail("lemma3(Q[T] under another order):" + bad.pop("kind"), q_t_order=topo2, ancestral_set=a_set, expression=q_a4.to_y0()[:1500], model=scm.params(), **bad)
+            if r4 is not None:
+                bad = _compare(r4, scm, c)
+                if bad:
+                    return fail("identify(Q[T] under another order):" + bad.pop("kind"), q_t_order=topo2, expression=r4.to_y0()[:2000], model=scm.params(), **bad)
     if r is None:
         labels.add("fail")
         if ref:
